@@ -2,6 +2,10 @@ import Hive.Conc.Sys
 /-!
 # DAGMutex (runtime/syncutils/dagmutex.go) over abstract per-entity reader/writer locks
 
+(The system composed of the real StarvingMutex monitors is `Hive/Model/SyncMutexComp.lean`, with the theorems
+`C17_dag_composed_*`; this coarser model is kept as the second executable oracle of the tie and for the
+pessimistic-blocking form of the deadlock theorem.)
+
 Per entity the DAGMutex keeps a `StarvingMutex` and a consumer count.  A consumer registers (count + 1,
 mutex created on demand) in one critical section of `d.Mutex` **before** it blocks on the entity's mutex,
 and unregisters in another one before it unlocks; when the last consumer unregisters the entity's
